@@ -498,6 +498,9 @@ impl<T: Clone + Eq + Debug + Default> WrappedBlock<T> {
                     }));
                     lineleft -= w.saturating_sub(wpos);
                 }
+            } else {
+                // Zero-width markers (fragment starts) stay with the text.
+                self.line.push(element);
             }
         }
         Ok(())
